@@ -370,6 +370,10 @@ COMMENT_DOCS += ['#import "m": (a // c\nas b)\n', '#import "m": (a as // c\n b)\
                  '#f(a: // c\n 1, b)\n', '#(a. // c\nb, c)\n', '#f(x => // c\n x)\n', '#(a, (b // c\n, d))\n', '#f(g(a // c\n))\n', '#f[a // c\n]\n', '#let x = (a // c\n)\n']
 
 
+def _unused():
+    pass
+
+
 def in_contexts(docs):
     """the same constructs on a line that also holds text, in a list item, in a content block on a text line and embedded in an equation"""
     out = []
@@ -422,6 +426,14 @@ EVAL_DOCS = [
     '#let x = [a] + [ b ]\n', '#f[a][ b ][c ]\n', '#f(x)[ y]\n', '#table(columns: 2, [ a ], [b ])\n', '#figure(caption: [ c ])[ d ]\n', '#show: it => [ #it ]\n',
     '`a  b`\n', '```\n  a\n b\n```\n', '- ```py\n  x = 1\n    y\n  ```\n', '#[```\n a\n```]\n', '#f(```\n  a\n  ```)\n', '"a  b"\n', '#"a  b"\n', '#let s = "a\n  b"\n',
     'a<l>\n', 'a <l>\n', '@r a\n', '@r[s] a\n', 'https://a.b c\n', "a 'b' c\n", 'a -- b --- c\n', 'a~b\n', '#h(1em)a\n', '#h(1em) a\n', '/ T: d\n/ U : e\n', '+ a\n  b\n',
+]
+# what the printer normalises (redundant parentheses, blanks in names, trailing separators) in places where a layout decision looks at the source
+NORMALISE_DOCS = [
+    '#f(((a+b)))\n', '#f((a+b))\n', '#let x = f(((aaaa + bbbb)))\n', '#(((a)))\n', '#f(((g(x))))\n', '#f(((a.b)))\n', '#f((-a))\n', '#f(((a)), ((b)))\n', '#f(((a, b)))\n', '#f((((a: 1))))\n',
+    '#let x = ((a + b))\n', '#let x = (((a, b)))\n', '#if ((a)) { b }\n', '#while (((a))) { b }\n', '#for x in ((y)) { z }\n', '#(((a)) + ((b)))\n', '#(k: ((v)))\n', '#((a,), ((b),))\n',
+    '#let f = x => ((x))\n', '#let f = ((x)) => x\n', '#f(((x) => x))\n', '#show: ((it)) => it\n', '#set text(((red)))\n', '#f((([a])))\n', '#f((({ a })))\n', '#f(((a))[b])\n' if False else '#f(((a)))[b]\n',
+    '#f(a,)\n', '#f(a,b,)\n', '#(a,b,)\n', '#(a: 1,)\n', '#let f(a,) = 1\n', '#f(a;)\n' if False else '#{a;}\n', '#{a;;b}\n', '#f( (a) )\n', '#f(\n(\n(a)))\n', '#f(((a\n+ b)))\n', '$ f(((a))) $\n', '$ ((a)) $\n',
+    '#a .b\n', '#a. b\n', '#a .b ()\n', '#f (a)\n' if False else '#(f) (a)\n', '#(a) .b\n', '#a.b .c (d)\n',
 ]
 MISC_DOCS = [
     '#{\n  1. .abs()\n}\n', '$a_* /* c */^2$\n', '#f(a, ..b, c: d)[e]\n', '#let (a, (b, c)) = d\n', '#import "a.typ" : *\n', '#import "a.typ" as b\n', '#include  "a.typ"\n',
